@@ -71,7 +71,7 @@ def random_scenarios(ctx, n, family, start_run=1):
             sc = base(run, cap=rng.choice([1, 1, 2, 3]), pool=rng.choice(["std", "low_memory"]),
                       workers=rng.choice([1, 2]), batch=rng.choice([1, 2]), single=rng.random() < 0.2,
                       lines=random_lines(rng, nev, rng.choice([1, 2, 3, 4]), rng.choice([["a"], ["a", "b"]]),
-                                         rng.choice([["P", "D"], ["P", "D", "R", "E"], ["P", "H", "C", "D"], ["P"], ["P", "S", "D"]])))
+                                         rng.choice([["P", "D"], ["P", "D", "R", "E"], ["P", "H", "C", "D"], ["P"], ["P", "S", "D"], ["P", "X", "D"], ["X", "P"]])))
         elif family == "batch":       # C08: worker counts / count limits / flush by timer
             sc = base(run, cap=32, workers=rng.choice([1, 2, 3, 4]), batch=rng.choice([1, 2, 3, 4, 5]),
                       flush_ms=rng.choice([5, 15, 40]),
